@@ -365,6 +365,8 @@ pub fn extra_universe() -> Universe {
     let mut s: Vec<Ty> = vec![];
     s.extend([Ty::adt(wide_e, vec![]), Ty::vec(Ty::adt(wide_e, vec![])), Ty::opt(Ty::adt(wide_e, vec![]))]);
     s.extend([Ty::adt(rep8, vec![a(Ty::vec(p(U64)))]), Ty::adt(rep8, vec![a(p(U8))]), Ty::vec(Ty::adt(rep8, vec![a(Ty::String)])), Ty::adt(rep16, vec![]), Ty::vec(Ty::adt(rep16, vec![])), Ty::adt(rep32, vec![]), Ty::adt(g1, vec![a(Ty::adt(rep32, vec![]))])]);
+    // array lengths beyond 2^32 (types without values)
+    s.extend([Ty::phantom(Ty::arr(p(U8), (1usize << 32) + 2)), Ty::arr(Ty::arr(p(U16), (1usize << 32) + 1), 0)]);
     // items of more than 4 KiB in sequences
     s.extend([Ty::vec(Ty::arr(p(U64), 513)), Ty::bslice(Ty::arr(p(U8), 4097))]);
     for (x, y) in [(Ty::vec(p(U64)), p(U8)), (Ty::String, p(U32)), (Ty::bslice(Ty::adt(za, vec![])), Ty::adt(za, vec![])), (Ty::vec(Ty::String), Ty::tup(p(U16), 2))] {
